@@ -261,6 +261,7 @@ func runC13(r *Report) {
 	c13R2(r)
 	c13R3(r)
 	c13R4(r)
+	c13TypedNil(r, "R1")
 }
 
 func c13R1(r *Report, rule string) {
@@ -1004,4 +1005,98 @@ func maxMakeLen(p *Prog) int64 {
 		return 1<<31 - 1
 	}
 	return 1<<32 - 1
+}
+
+// ---------- typed nil ----------
+
+// c13TypedNil: a function of the module whose result is a module interface (webseed.Webseed, tracker.Tracker) reports
+// "no such thing" by returning nil, and its callers test `== nil`. Returning a pointer-typed value that can be nil —
+// the result of a constructor that returns (*T)(nil) on failure — yields an interface that is not nil but panics on the
+// first method call: ReadTorrent accepts an ftp:// web seed, and WriteTorrent or the scheduler crash on it later.
+func c13TypedNil(r *Report, rule string) {
+	p := r.P
+	n := 0
+	// mayBeNil: a pointer value that can be the nil pointer
+	var mayBeNil func(v ssa.Value, d int) bool
+	mayBeNil = func(v ssa.Value, d int) bool {
+		if d > 4 || v == nil {
+			return false
+		}
+		switch x := v.(type) {
+		case *ssa.Const:
+			return x.IsNil()
+		case *ssa.Phi:
+			for _, e := range x.Edges {
+				if mayBeNil(e, d+1) {
+					return true
+				}
+			}
+		case *ssa.Call:
+			h := x.Call.StaticCallee()
+			if h == nil || h.Blocks == nil || x.Call.IsInvoke() || !strings.HasPrefix(funcPkgPath(h), modPath) {
+				return false
+			}
+			for _, ret := range returnsOf(h) {
+				res := retResults(ret)
+				if len(res) >= 1 && mayBeNil(res[0], d+1) {
+					return true
+				}
+			}
+		case *ssa.Extract:
+			if c, ok := x.Tuple.(*ssa.Call); ok && x.Index == 0 {
+				h := c.Call.StaticCallee()
+				if h == nil || h.Blocks == nil || !strings.HasPrefix(funcPkgPath(h), modPath) {
+					return false
+				}
+				for _, ret := range returnsOf(h) {
+					res := retResults(ret)
+					if len(res) >= 1 && mayBeNil(res[0], d+1) {
+						return true
+					}
+				}
+			}
+		}
+		return false
+	}
+	for _, f := range p.SrcFuncs() {
+		pk := relPkg(f)
+		if pk != "webseed" && pk != "tracker" && pk != "tor" {
+			continue
+		}
+		res := f.Signature.Results()
+		for i := 0; i < res.Len(); i++ {
+			nt := namedOf(res.At(i).Type())
+			if nt == nil || nt.Obj().Pkg() == nil || !strings.HasPrefix(nt.Obj().Pkg().Path(), modPath) {
+				continue
+			}
+			if _, isI := nt.Underlying().(*types.Interface); !isI {
+				continue
+			}
+			for _, ret := range returnsOf(f) {
+				rr := retResults(ret)
+				if i >= len(rr) {
+					continue
+				}
+				mi, ok := rr[i].(*ssa.MakeInterface)
+				if !ok {
+					continue
+				}
+				if _, isPtr := mi.X.Type().Underlying().(*types.Pointer); !isPtr {
+					continue
+				}
+				n++
+				r.Fn(f)
+				// a pointer tested non-nil before it is wrapped is fine
+				guarded := false
+				for _, g := range guardsOf(ret.Block()) {
+					if x, isNil, okn := nilFact(g); okn && !isNil && x == mi.X {
+						guarded = true
+					}
+				}
+				r.Check(guarded || !mayBeNil(mi.X, 0), rule, fmt.Sprintf("%s/returns-%s-not-typed-nil", fname(f), nt.Obj().Name()), ret.Pos(), "the interface result wraps a pointer that cannot be nil",
+					fname(f)+" returns a "+typeShort(mi.X.Type())+" that can be nil as a "+nt.Obj().Name()+": the interface value is not nil, so the caller's `== nil` test accepts it, and the first method call on it dereferences a nil pointer (a web seed or tracker with an unusable URL is kept, and crashes the torrent when it is used or written back)")
+			}
+		}
+	}
+	r.Sentinel(rule+".typed-nil", n, 2)
 }
